@@ -116,6 +116,10 @@ func (v *authorizer) AddPolicy(policy Policy) {
 }
 
 func (v *authorizer) Authorize() error {
+	// from here on the world holds token content, whether or not the
+	// evaluation below succeeds: it must not be saved as policies any more
+	v.dirty = true
+
 	// if we load facts from the verifier before
 	// the token's fact and rules, we might get inconsistent symbols
 	// token ements should first be converted to builder elements
@@ -140,7 +144,6 @@ func (v *authorizer) Authorize() error {
 	if err := v.world.Run(v.symbols); err != nil {
 		return err
 	}
-	v.dirty = true
 
 	var errs []error
 
@@ -279,10 +282,11 @@ func (v *authorizer) Authorize() error {
 }
 
 func (v *authorizer) Query(rule Rule) (FactSet, error) {
+	// a failed evaluation leaves derived facts in the world as well
+	v.dirty = true
 	if err := v.world.Run(v.symbols); err != nil {
 		return nil, err
 	}
-	v.dirty = true
 
 	facts := v.world.QueryRule(rule.convert(v.symbols), v.symbols)
 
